@@ -65,6 +65,18 @@ def run_family(R, tier, rng, ops):
             st = [rng.randint(0, len(r)) for r in Rw]
             en = [rng.choice([rng.randint(s, len(r)), -rng.randint(1, max(1, len(r)))]) if len(r) else s for s, r in zip(st, Rw)]
             add("rslice", "rslice %s %s %s" % (show(Rw), show(st), show(en)), lambda: L(ragged_slice(mk(), np.array(st), np.array(en))), rows=Rw)
+            # a 1-D input (every window cut from the same array) and a 2-D input (a matrix: rows of one width); bounds given or defaulted
+            d1 = [rng.randint(-9, 9) for _ in range(rng.randint(1, 7))]; k1 = rng.randint(1, 4)
+            st1 = [rng.randint(0, len(d1)) for _ in range(k1)]; en1 = [rng.choice([rng.randint(s, len(d1)), -rng.randint(1, len(d1))]) for s in st1]
+            add("rslice", "rslice1d %s %s %s" % (show(d1), show(st1), show(en1)), lambda: L(ragged_slice(np.array(d1), np.array(st1), np.array(en1))), rows=[d1] * 2)
+            add("rslice", "rslice1d %s %s %s" % (show(d1), show([0] * k1), show(en1)), lambda: L(ragged_slice(np.array(d1), None, np.array(en1))), rows=[d1] * 2)
+            add("rslice", "rslice1d %s %s %s" % (show(d1), show(st1), show([len(d1)] * k1)), lambda: L(ragged_slice(np.array(d1), np.array(st1))), rows=[d1] * 2)
+            w2 = rng.randint(1, 4); n2 = rng.randint(1, 4)
+            M2 = [[rng.randint(-9, 9) for _ in range(w2)] for _ in range(n2)]
+            st2 = [rng.randint(0, w2) for _ in range(n2)]; en2 = [rng.choice([rng.randint(s, w2), -rng.randint(1, w2)]) for s in st2]
+            add("rslice", "rslice2d %s %d %s %s" % (show(M2), w2, show(st2), show(en2)), lambda: L(ragged_slice(np.array(M2), np.array(st2), np.array(en2))), rows=M2)
+            add("rslice", "rslice2d %s %d %s %s" % (show(M2), w2, show([0] * n2), show(en2)), lambda: L(ragged_slice(np.array(M2), None, np.array(en2))), rows=M2)
+            add("rslice", "rslice2d %s %d %s %s" % (show(M2), w2, show(st2), show([w2] * n2)), lambda: L(ragged_slice(np.array(M2), np.array(st2))), rows=M2)
             if max(ls) > 0:
                 for left in (0, 1):
                     add("padded", "padded %s 7 %d" % (show(Rw), left), lambda: L(mk().as_padded_matrix(fill_value=7, side="left" if left else "right")), rows=Rw)
